@@ -82,6 +82,33 @@ class GoLower:
             return self.call(e, env, depth)
         if k == "conv":
             return self.expr(e.x, env, depth)
+        if k == "cond":
+            a = self.expr(e.a, env, depth)
+            b = self.expr(e.b, env, depth)
+            c = e.c
+            while c.k == "paren":
+                c = c.x
+            if c.k == "bin" and c.op in ("<", "<="):
+                l = self.expr(c.l, env, depth)
+                r = self.expr(c.r, env, depth)
+                # (l < r) ? min(l, rest) : min(r, rest)  ==  min(l, r, rest)
+                def rest_of(x: Poly, head: Poly):
+                    if x == head:
+                        return []
+                    at = None
+                    if len(x.terms) == 1:
+                        (m, cf), = x.terms.items()
+                        if cf == 1 and len(m) == 1 and m[0][1] == 1 and m[0][0][0] == "min":
+                            at = list(m[0][0][1])
+                    if at is not None and any(y == head for y in at):
+                        return [y for y in at if y != head]
+                    return None
+                ra, rb = rest_of(a, l), rest_of(b, r)
+                if ra is not None and rb is not None and [x.key() for x in ra] == [x.key() for x in rb]:
+                    return vmin([l, r] + ra)
+            if a == b:
+                return a
+            return Poly.atom(("ite", go_src(e.c), a, b))
         if k == "index":
             base = go_src(e.x)
             return Poly.atom(("load", self.names.get(base, base), self.expr(e.i, env, depth)))
@@ -120,6 +147,8 @@ class GoLower:
         for st in stmts:
             if st.k == "assign" and st.op in (":=", "=") and len(st.lhs) == 1 and st.lhs[0].k == "id":
                 env[st.lhs[0].name] = self.expr(st.rhs[0], env, depth)
+                continue
+            if st.k == "vardecl":
                 continue
             if st.k == "return":
                 general = self.expr(st.vals[0], env, depth) if st.vals else C(0)
